@@ -258,7 +258,11 @@ const (
 	RemoveAKA
 	ReplaceNote // ietf-json-patch: replace /note (fails to apply when the member is absent)
 	RemoveNote  // ietf-json-patch: remove /note (fails to apply when the member is absent)
+	AddMember   // ietf-json-patch: add a top-level member named IDs[0] (any JSON string: the pointer must be escaped) with value Mark
 )
+
+// OddMemberNames are legal top-level member names of an opaque document that need escaping in a JSON pointer or a JSON string.
+var OddMemberNames = []string{"https://schema.org/description", "rev~1", "a~b/c", `say "hi"`, "caf\u00e9 & more", "serviceTerms", "publicKeyNote"}
 
 // PatchDesc is the symbolic description of one generated patch.
 type PatchDesc struct {
@@ -581,6 +585,12 @@ func ToPatch(d PatchDesc) (patch.Patch, error) {
 		b, _ := json.Marshal(d.IDs)
 
 		return patch.NewRemoveServiceEndpointsPatch(string(b))
+	case AddMember:
+		ptr := "/" + strings.NewReplacer("~", "~0", "/", "~1").Replace(d.IDs[0])
+		pb, _ := json.Marshal(ptr)
+		vb, _ := json.Marshal(d.Mark)
+
+		return patch.NewJSONPatch(fmt.Sprintf(`[{"op":"add","path":%s,"value":%s}]`, pb, vb))
 	case AddNote:
 		return patch.NewJSONPatch(fmt.Sprintf(`[{"op":"add","path":"/note","value":%q}]`, d.Mark))
 	case FailTest:
@@ -681,8 +691,17 @@ func OpaqueDoc(keyIDs, svcIDs, uris []string, note, mark string) (string, []Patc
 	}
 
 	if note != "" {
-		parts = append(parts, fmt.Sprintf(`"note":%q`, note))
-		descs = append(descs, PatchDesc{Kind: AddNote, Mark: note})
+		// "name\x00value": the member carries another name than "note"
+		if i := strings.IndexByte(note, 0); i > 0 {
+			name, val := note[:i], note[i+1:]
+			nb, _ := json.Marshal(name)
+			vb, _ := json.Marshal(val)
+			parts = append(parts, string(nb)+":"+string(vb))
+			descs = append(descs, PatchDesc{Kind: AddMember, IDs: []string{name}, Mark: val})
+		} else {
+			parts = append(parts, fmt.Sprintf(`"note":%q`, note))
+			descs = append(descs, PatchDesc{Kind: AddNote, Mark: note})
+		}
 	}
 
 	doc := "{"
